@@ -101,7 +101,6 @@ Proof. exact certified2_instruction. Qed.
 
 Theorem C02b_output_is_layout_ok : forall indexed defs ps budget r,
   assemble2 indexed defs ps budget = Ok r ->
-  Forall OutputP.no_empty_emit (r_nodes r) ->
   LayoutInv.layout_ok (r_banks r) (r_items r) (r_bits r) = true /\ LayoutInv.windows_ok (r_banks r) = true.
 Proof. exact Resolver2TopP.C02b_output_is_layout_ok. Qed.
 
